@@ -515,6 +515,15 @@ func (fc *FnCtx) applyContract(fr *Frame, st *State, instr ssa.Instruction, spec
 		}
 	}
 	fc.havocForContract(st, ws)
+	// a pointer to one of the caller's local variables handed to the callee: the callee may assign through
+	// it (e.g. (*Hash).UnmarshalJSON(&h)); what it leaves there is described by its postconditions (deref)
+	for _, a := range args {
+		if pv, ok := a.(*PtrVal); ok && pv.Kind == PCell && pv.Typ != nil {
+			if _, isTerm := st.cells[pv.Cell].(Term); isTerm {
+				st.cells[pv.Cell] = fc.havocValue(st, "outparam", pv.Typ)
+			}
+		}
+	}
 	// inside a function written to contain panics (deferred recover) every repo callee may panic
 	if spec.MayPanic || (callee != nil && fc.topFrame != nil && fnRecovers(fc.topFrame.fn)) {
 		ps := st.clone()
